@@ -109,6 +109,70 @@ func init() {
 			return e
 		}
 	}
+	// ---- descriptor-level typestate (ghost osOpen): raw descriptors are keyed by -(fd+1), *os.File objects by their
+	// reference. unix.Socket opens a descriptor, unix.Close closes it (must be open), os.NewFile hands the descriptor over
+	// to a fresh file object, (*os.File).Close closes that (must be open). Separate from the interface-level isOpen/closeN.
+	osArr := func(ex *Exec, st *State) string {
+		ex.registerKey("X|osOpen", arrSort(sInt, sBool))
+		return ex.heapGet(st, "X|osOpen", arrSort(sInt, sBool))
+	}
+	fdKey := func(fd string) string { return app("-", app("-", "0", fd), "1") }
+	reg("golang.org/x/sys/unix.Socket", func(c *callCtx) Val {
+		ex := c.ex
+		fd := ex.freshVal(types.Typ[types.Int], c.st, "fd")
+		e := ex.freshVal(errorT(), c.st, "sockerr")
+		ex.assumeExternalError(e)
+		if ex.pure == 0 {
+			op := osArr(ex, c.st)
+			ok := eq(e.L[0], "0")
+			ex.assume(imp(ok, and(app("<=", "0", fd.L[0]), not(sel(op, fdKey(fd.L[0]))))))
+			ex.setH(c.st, "X|osOpen", ex.name("osopen", ite(and(c.r(), ok), sto(op, fdKey(fd.L[0]), "true"), op), arrSort(sInt, sBool)))
+		}
+		ex.used["library model: unix.Socket returns a fresh open descriptor or an error (A-OS)"] = true
+		return tupleVal(c.fn.Signature.Results(), []Val{fd, e})
+	})
+	reg("golang.org/x/sys/unix.Close", func(c *callCtx) Val {
+		ex := c.ex
+		e := ex.freshVal(errorT(), c.st, "closeerr")
+		ex.assumeExternalError(e)
+		if ex.pure == 0 {
+			op := osArr(ex, c.st)
+			k := fdKey(c.args[0].L[0])
+			if c.fr != nil && c.reach != nil && c.instr != nil {
+				ex.oblige(c.fr.label("typestate.close.fd"), "nopanic", []string{"C10"}, imp(c.r(), sel(op, k)), ex.posOf(c.instr.Pos()), "descriptor closed while not open (closed twice, handed over to a file, or never opened)")
+			}
+			ex.setH(c.st, "X|osOpen", ex.name("osopen", ite(c.r(), sto(op, k, "false"), op), arrSort(sInt, sBool)))
+		}
+		return e
+	})
+	reg("os.NewFile", func(c *callCtx) Val {
+		ex := c.ex
+		ref := ex.alloc(c.st)
+		if ex.pure == 0 {
+			op := osArr(ex, c.st)
+			k := fdKey(c.args[0].L[0])
+			// ownership of the descriptor moves to the file object
+			n1 := sto(op, k, "false")
+			n2 := sto(n1, ref, "true")
+			ex.setH(c.st, "X|osOpen", ex.name("osopen", ite(c.r(), n2, op), arrSort(sInt, sBool)))
+		}
+		ex.used["library model: os.NewFile wraps a valid descriptor in a fresh non-nil *os.File that owns it (A-OS)"] = true
+		return Val{T: c.fn.Signature.Results().At(0).Type(), L: []string{ref}}
+	})
+	reg("(*os.File).Close", func(c *callCtx) Val {
+		ex := c.ex
+		e := ex.freshVal(errorT(), c.st, "closeerr")
+		ex.assumeExternalError(e)
+		if ex.pure == 0 {
+			op := osArr(ex, c.st)
+			k := c.args[0].L[0]
+			if c.fr != nil && c.reach != nil && c.instr != nil {
+				ex.oblige(c.fr.label("typestate.close.file"), "nopanic", []string{"C10"}, imp(c.r(), sel(op, k)), ex.posOf(c.instr.Pos()), "*os.File closed while not open (closed twice)")
+			}
+			ex.setH(c.st, "X|osOpen", ex.name("osopen", ite(c.r(), sto(op, k, "false"), op), arrSort(sInt, sBool)))
+		}
+		return e
+	})
 	reg("net.Conn.Close", closer("net.Conn"))
 	reg("net.Listener.Close", closer("net.Listener"))
 	// syscall.RawConn.Control(f): f runs once on the descriptor unless the connection is already closed, in which case
